@@ -85,8 +85,9 @@ CLAIMS["C16"] = ("postgres unit (real bodies): RecyclingMethod::query is the doc
 CLAIMS["C14"] = ("SyncWrapper (unit sy; real bodies of new, interact, is_mutex_poisoned, Drop::drop, with the two `move ||` closures lifted mechanically to functions of their own): calls into user code (the creating closure, the closure given to interact, "
             "the destructor of the wrapped value) carry a flag saying whether the code runs inside a spawn_blocking job; their contracts require it, so a closure call or a destruction outside a job fails a named precondition; "
             "the interact job: lock, Aborted exactly when the value is gone, a panic of the closure poisons the mutex (guard dropped while unwinding) and a poisoned mutex panics again; interact: a panic is reported as InteractError::Panic exactly when the mutex ends up poisoned, "
-            "poisoned from then on, the wrapper stays usable; drop: the value is taken out under the lock (poisoned or not) inside a background job, so it is destroyed once and never seen by a later closure; no lock().unwrap() outside a job.",
-            "DESIGN.md 0.7", "PARTIAL by nature: OS threads do not exist in the verifier - 'runs on a thread where blocking is allowed' is the contract of deadpool_runtime::spawn_blocking (trusted) and the proof is that every use of the value sits inside such a job; "
+            "poisoned from then on, the wrapper stays usable; drop: the value is taken out under the lock (poisoned or not) inside a background job, so it is destroyed once and never seen by a later closure; no lock().unwrap() outside a job. "
+            "Unit rt (runtime/src/lib.rs, real bodies): Runtime::spawn_blocking / spawn_blocking_background hand the closure to tokio's / async-std's blocking pool and never call it themselves, a panic of the closure is reported as SpawnBlockingError::Panic, the background variant never fails; Runtime::timeout is the contract the pool units assume.",
+            "DESIGN.md 0.7", "PARTIAL by nature: OS threads do not exist in the verifier - 'runs on a thread where blocking is allowed' is the contract of tokio::task::spawn_blocking / async_std::task::spawn_blocking (trusted models) and the proof is that every use of the value sits inside a job that reaches them; "
             "jobs are evaluated eagerly (one schedule: the job runs when it is spawned), so 'after any closure still using the value has finished' rests on std's Mutex (trusted), not on an interleaving argument; poisoning is std's behaviour (model PMutex). ")
 
 NOT_APPLICABLE = {
